@@ -189,14 +189,14 @@ def _session_abuse(ctx, ch, L, world, mon, history):
 	change = ch.pick(['modify_taxon', 'add_genome', 'delete_annotation', 'modify_genome'], L + '.change')
 	s, keep = _get_session(route, world)
 	desc = f'session abuse ({route}, {change})'
-	try:
+	def modify():
 		if change == 'modify_taxon':
 			t = s.query(Taxon).first()
 			if t is not None:
 				t.name = t.name + ' (edited)'
 				t.distance_threshold = 0.123
 		elif change == 'add_genome':
-			s.add(Genome(key='gvsim/new', description='added through the default session'))
+			s.add(Genome(key=f'gvsim/new{len(s.new)}', description='added through the default session'))
 		elif change == 'delete_annotation':
 			a = s.query(AnnotatedGenome).first()
 			if a is not None:
@@ -205,8 +205,10 @@ def _session_abuse(ctx, ch, L, world, mon, history):
 			g = s.query(Genome).first()
 			if g is not None:
 				g.description = 'edited'
-		steps = ['flush', 'autoflush_query', 'commit', 'begin_block']
-		n = ch.int(1, 4, L + '.nsteps')
+	try:
+		modify()
+		steps = ['flush', 'autoflush_query', 'commit', 'begin_block', 'rollback_then_modify', 'close_then_modify']
+		n = ch.int(1, 6, L + '.nsteps')
 		for j in range(n):
 			st = ch.pick(steps, f'{L}.st{j}')
 			if st == 'flush':
@@ -228,6 +230,16 @@ def _session_abuse(ctx, ch, L, world, mon, history):
 				else:
 					mon.after(desc + ' commit()', history)   # a write may already be on disk: report that first
 					ctx.violation('C18.commit-accepted', f'{desc}: commit() on the default session did not raise', detail=f'session class {type(s).__name__}')
+			elif st in ('rollback_then_modify', 'close_then_modify'):
+				# connection turnover: whatever made the session read-only must survive a rollback / close
+				try:
+					s.rollback() if st.startswith('rollback') else s.close()
+				except Exception:
+					pass
+				try:
+					modify()
+				except Exception:
+					pass
 			else:
 				try:
 					with s.begin_nested():
